@@ -84,3 +84,8 @@ def run(ctx):
     ctx.assumptions += ["default completion, history completion, document/post-fix order, children and target sets have no specification other than Model.Tables itself (the flat chart `flatten` builds is shared with the Appendix D oracle of C01): for them the check is the bit-for-bit comparison only",
                         "transitions into history states and transitions of <initial>/<history> elements are outside `plainTrans` (recorded finding hist-domain)",
                         "the tables embedded in the emitted C / Promela / VHDL text are compared by C04 / C06 / C18"]
+
+
+def replay(ctx, path):
+    import uvlib
+    return uvlib.generic_replay(ctx, path, [(None, "tables", "tables", None)])
